@@ -558,6 +558,9 @@ func runeDeltaKind(p *Program, v ssa.Value, depth int) (string, string) {
 		}
 		return "unknown", "a tuple component"
 	case *ssa.BinOp:
+		if x.Op == token.SUB && asciiSpan(x) {
+			return "the length of a run of bytes each compared equal to an ASCII character", ""
+		}
 		if x.Op == token.ADD || x.Op == token.SUB {
 			k1, w1 := runeDeltaKind(p, x.X, depth+1)
 			if k1 == "bytes" || k1 == "unknown" {
@@ -580,4 +583,78 @@ func runeDeltaKind(p *Program, v ssa.Value, depth int) (string, string) {
 		}
 	}
 	return "unknown", v.Name()
+}
+
+// asciiSpan: x is `pos - cursor` where cursor is a load of the byte cursor (a field of the lexer) and pos is a loop
+// variable that starts at cursor + k and is incremented by one only on the side of a branch where the byte Input[pos]
+// is known to be below 0x80 (interval propagation of that byte): the difference counts single-byte characters.
+func asciiSpan(x *ssa.BinOp) bool {
+	ph, ok := stripChange(x.X).(*ssa.Phi)
+	if !ok {
+		return false
+	}
+	cur, ok := stripChange(x.Y).(*ssa.UnOp)
+	if !ok || cur.Op != token.MUL {
+		return false
+	}
+	fa, ok := cur.X.(*ssa.FieldAddr)
+	if !ok {
+		return false
+	}
+	_, cf, _, _ := fieldOf(fa)
+	fn := ph.Parent()
+	// edges: cursor + k (k >= 0), or ph + 1
+	var incs []*ssa.BinOp
+	for _, e := range ph.Edges {
+		e = stripChange(e)
+		bo, ok := e.(*ssa.BinOp)
+		if !ok || bo.Op != token.ADD {
+			return false
+		}
+		k, okK := constNum(bo.Y)
+		if !okK || k < 0 {
+			return false
+		}
+		if stripChange(bo.X) == ssa.Value(ph) {
+			if k != 1 {
+				return false
+			}
+			incs = append(incs, bo)
+			continue
+		}
+		ld, ok := stripChange(bo.X).(*ssa.UnOp)
+		if !ok {
+			return false
+		}
+		fa2, ok := ld.X.(*ssa.FieldAddr)
+		if !ok {
+			return false
+		}
+		if _, f2, _, _ := fieldOf(fa2); f2 != cf {
+			return false
+		}
+		// the k bytes before the loop start are the caller's business (already classified where the cursor moved)
+	}
+	if len(incs) == 0 {
+		return false
+	}
+	// the byte at ph
+	var byteVal ssa.Value
+	var byteIn ssa.Instruction
+	allInstrs(fn, func(in ssa.Instruction) {
+		if idx, v, ok := strIndex(in); ok && isByteVal(v) && stripChange(idx) == ssa.Value(ph) {
+			byteVal, byteIn = v, in
+		}
+	})
+	if byteVal == nil {
+		return false
+	}
+	sets := reachSets(fn, byteVal, byteIn.Block(), ivFull(0xFF))
+	for _, inc := range incs {
+		set := sets[inc.Block()]
+		if len(set) == 0 || set[len(set)-1][1] >= 0x80 {
+			return false
+		}
+	}
+	return true
 }
